@@ -169,7 +169,37 @@ def c2s(ctx, n):
                  timeout=ctx.pick(900, 3000))
 
 
+def selftest(ctx):
+    """non-vacuity of both binding directions on a fixed short run (machinery failure if it does not fire)"""
+    script = [("put", [1, 1, NOTO]), ("put", [2, 1, 1]), ("get", [1, NOTO]), ("join", [1, 2]), ("advance", [1]),
+              ("task_done", []), ("get_nowait", [2]), ("task_done", []), ("task_done", [])]
+    cfg = {"kind": "lifo", "maxsize": 1, "style": 0}
+    real = QueueReal(cfg, NP_GEN, NG_GEN, NJ_GEN, style=0)
+    try:
+        ev = [{"a": a, "args": args, "obs": real.step(a, args)} for a, args in script]
+    finally:
+        real.close()
+
+    def corrupt(obs):
+        obs = dict(obs)
+        obs["qsize"] = obs["qsize"] + 1
+        return obs
+    sync_paths.binding_selftest(ctx, "Trace_Queue", "Trace_Queue.cfg", {"NP": NP_GEN, "NG": NG_GEN, "NJ": NJ_GEN},
+                                {"id": 1, "cfg": cfg, "ev": ev}, corrupt,
+                                lambda e, p: _replay({"cfg": {"kind": "lifo", "maxsize": 1}}, p, _dims(p), 0))
+
+
+def _timed(ctx, name, t0):
+    import time
+    ctx.cov.setdefault("phases_s", {})[name] = round(time.time() - t0, 1)
+    return time.time()
+
+
 def run(ctx):
+    import time
+    t0 = time.time()
+    selftest(ctx)
+    t0 = _timed(ctx, "selftest", t0)
     # 1. model checking of the specification
     req = ["Put", "PutNowait", "Get", "GetNowait", "TaskDone", "Join", "Advance", "CancelPut", "CancelGet", "CancelJoin"]
     if ctx.quick:
@@ -179,6 +209,7 @@ def run(ctx):
                required_actions=req, timeout=3000)
         ctx.mc("sync", "Queue", "MC_Queue.cfg", overrides={"NP": 3, "NG": 3, "NJ": 2, "MaxSizes": "{0, 1, 2, 3}"},
                required_actions=req, timeout=3000)
+    t0 = _timed(ctx, "mc", t0)
     # 2. spec -> code: all paths up to L over five alphabets
     rule = []
     for name, ov, lq, lt in GEN_FAMILIES:
@@ -189,13 +220,16 @@ def run(ctx):
                                  nontrivial=lambda e, p: len(p) >= 2 and any(s["act"] != "advance" for s in p))
         rule.append("%s: all sequences <= %d over %s" % (name, L, ", ".join("%s=%s" % kv for kv in sorted(ov.items()))))
     ctx.cov["exhaustive"] = True
+    t0 = _timed(ctx, "s2c-enum", t0)
     # long seeded walks through larger constants
     sync_paths.sim_replay(ctx, "Gen_Queue", "Gen_Queue.cfg", num=ctx.pick(600, 20000), depth=40,
                           overrides={"L": 40, "NP": 14, "NG": 14, "NJ": 6, "MaxSizes": "{0, 1, 2, 3}", "Prios": "{1, 2, 3}",
                                      "Timeouts": "{0, 1, 2, 3, 999}", "MaxAdvance": 3},
                           replayer=replayer)
+    t0 = _timed(ctx, "s2c-sim", t0)
     # 3. code -> spec: random recorded runs validated by TLC
     c2s(ctx, ctx.pick(240, 4000))
+    t0 = _timed(ctx, "c2s", t0)
     ctx.cov["rule"] = ("paths: " + "; ".join(rule) + "; per queue class; plus seeded TLC simulation walks (depth 40) and "
                        "random recorded runs; distinct = distinct (config, operation sequence); non-trivial = length >= 2 "
                        "with a non-advance op")
